@@ -84,9 +84,16 @@ func (r *renderer) trailLast(n *Node) string {
 	return ""
 }
 
-func docLines(t *TypeDecl) []string {
+func (r *renderer) docLines(t *TypeDecl) []string {
 	var d []string
 	d = append(d, t.ExtraDoc...)
+	for _, ir := range t.ImplRefs {
+		amp := ""
+		if ir.Ptr {
+			amp = "&"
+		}
+		d = append(d, "// @implements "+amp+r.qual(ir.Iface.Pkg)+ir.Iface.Name)
+	}
 	if t.Immutable {
 		d = append(d, "// @immutable")
 	}
@@ -121,7 +128,7 @@ func (r *renderer) typeDecl(t *TypeDecl) {
 		r.indent++
 		prefix = ""
 	}
-	for _, d := range docLines(t) {
+	for _, d := range r.docLines(t) {
 		r.emit("%s", d)
 	}
 	t.File = r.f
@@ -182,6 +189,13 @@ func (r *renderer) typeDecl(t *TypeDecl) {
 	if t.Grouped {
 		r.indent--
 		r.emit(")")
+	}
+	for _, ir := range t.ImplRefs {
+		if ir.Iface.Pkg != r.f.Pkg || r.f.Kind == FileXTest {
+			// the annotation's qualifier must be bound by an import of this file
+			r.emit("")
+			r.emit("var _ %s%s", r.qual(ir.Iface.Pkg), ir.Iface.Name)
+		}
 	}
 }
 
